@@ -117,14 +117,22 @@ fn show_files<'a, I: Iterator<Item = (&'a String, &'a Vec<u8>)>>(it: I, sort: bo
     format!("ok [{}]", es.join(" "))
 }
 
-fn show_textures(v: Vec<Texture>, sjis: bool, sort: bool) -> String {
-    let mut es: Vec<String> = v
+fn show_textures(v: Vec<Texture>) -> String {
+    let es: Vec<String> = v.iter().map(|t| format!("{},{},{},{}", s_utf8(&t.filename), t.width, t.height, show_b(&t.pixel_data))).collect();
+    format!("ok {} [{}]", es.len(), es.join(" "))
+}
+
+/// HashMap<String, Texture>: the KEY is printed as the name; a key that differs from the texture's own file name is flagged
+fn show_texture_map(m: std::collections::HashMap<String, Texture>, sjis: bool) -> String {
+    let enc = |s: &str| if sjis { s_sjis(s) } else { s_utf8(s) };
+    let mut es: Vec<String> = m
         .iter()
-        .map(|t| format!("{},{},{},{}", if sjis { s_sjis(&t.filename) } else { s_utf8(&t.filename) }, t.width, t.height, show_b(&t.pixel_data)))
+        .map(|(k, t)| {
+            let name = if *k == t.filename { enc(k) } else { format!("{}!{}", enc(k), enc(&t.filename)) };
+            format!("{},{},{},{}", name, t.width, t.height, show_b(&t.pixel_data))
+        })
         .collect();
-    if sort {
-        es.sort();
-    }
+    es.sort();
     format!("ok {} [{}]", es.len(), es.join(" "))
 }
 
@@ -173,10 +181,10 @@ pub fn run(toks: &[&str]) -> String {
                 catch_unwind(AssertUnwindSafe(|| match k {
                     0 => res(fsys.read_arc(&path, loc), |m| show_files(m.iter(), true)),
                     1 => res(fsys.read_fe9_arc(&path, loc), |m| show_files(m.iter(), false)),
-                    2 => res(fsys.read_tpl_textures(&path, loc), |v| show_textures(v, false, false)),
-                    3 => res(fsys.read_bch_textures(&path, loc), |m| show_textures(m.into_iter().map(|(_, t)| t).collect(), false, true)),
-                    4 => res(fsys.read_ctpk_textures(&path, loc), |m| show_textures(m.into_iter().map(|(_, t)| t).collect(), true, true)),
-                    _ => res(fsys.read_cgfx_textures(&path, loc), |m| show_textures(m.into_iter().map(|(_, t)| t).collect(), false, true)),
+                    2 => res(fsys.read_tpl_textures(&path, loc), show_textures),
+                    3 => res(fsys.read_bch_textures(&path, loc), |m| show_texture_map(m, false)),
+                    4 => res(fsys.read_ctpk_textures(&path, loc), |m| show_texture_map(m, true)),
+                    _ => res(fsys.read_cgfx_textures(&path, loc), |m| show_texture_map(m, false)),
                 }))
                 .unwrap_or_else(|_| "panic".to_string())
             }
